@@ -116,7 +116,7 @@ class Report:
         self.known_hits = []
         self.inconclusive = []
         self.harness_errors = []
-        self.stats = {"queries": 0, "unsat": 0, "sat": 0, "unknown": 0, "error": 0, "solver_s": 0.0}
+        self.stats = {"queries": 0, "unsat": 0, "sat": 0, "unknown": 0, "error": 0, "solver_s": 0.0, "cross_checked": 0, "cross_disagreements": 0}
         self.functions = set()
         self.prims = {}
         self.samples = []
@@ -134,7 +134,7 @@ class Report:
         if "harness_error" in r:
             self.harness_errors.append({"instance": r.get("instance"), "error": r["harness_error"], "trace": r.get("trace", "")})
             return
-        for k in ("queries", "unsat", "sat", "unknown", "error", "solver_s"):
+        for k in ("queries", "unsat", "sat", "unknown", "error", "solver_s", "cross_checked", "cross_disagreements"):
             self.stats[k] += r.get("stats", {}).get(k, 0)
         for k, v in r.get("counters", {}).items():
             self.count(k, v)
@@ -196,6 +196,9 @@ class Report:
         cov.setdefault("queries_discharged", self.stats["queries"])
         cov["queries_by_verdict"] = {k: self.stats[k] for k in ("unsat", "sat", "unknown", "error")}
         cov["solver_seconds"] = round(self.stats["solver_s"], 2)
+        cov["second_solver_cross_check"] = {"solver": "z3 5.1 (z3-new)", "queries_rechecked": self.stats["cross_checked"], "disagreements": self.stats["cross_disagreements"]}
+        if self.stats["cross_disagreements"]:
+            self.harness_errors.append({"instance": None, "error": f"{self.stats['cross_disagreements']} sat/unsat disagreement(s) between z3 4.8.12 and z3 5.1"})
         cov["encode_seconds"] = round(self.encode_s, 2)
         cov["functions_encoded"] = sorted(self.functions)[:80]
         cov["primitives_seen"] = dict(sorted(self.prims.items()))
